@@ -399,6 +399,15 @@ def run_unit(c: Contract, timeout_ms=10000, lookup=None):
     return reports
 
 
+def _prune_live(interp, s0):
+    """a precondition over a datum of D prunes its live cells too (the shadows are consulted per live cell)"""
+    for root, live in list(s0.live.items()):
+        term = interp.ctx.roots[root]
+        keep = [cc for cc in sorted(live) if interp.check_sat(s0, T.F_cell(term) == cc)]
+        if len(keep) != len(live):
+            interp.narrow(s0, root, keep)
+
+
 def _run_instance(c, tree, mod, label, recv, rep, timeout_ms, lookup):
     ctx = Ctx()
     try:
@@ -476,12 +485,7 @@ def _run_instance(c, tree, mod, label, recv, rep, timeout_ms, lookup):
         for rq in c.requires:
             s0.assume(env0.eval_bool(rq))
         if c.requires:
-            # a precondition over a datum of D prunes its live cells too (the shadows are consulted per live cell)
-            for root, live in list(s0.live.items()):
-                term = interp.ctx.roots[root]
-                keep = [cc for cc in sorted(live) if interp.check_sat(s0, T.F_cell(term) == cc)]
-                if len(keep) != len(live):
-                    interp.narrow(s0, root, keep)
+            _prune_live(interp, s0)
         interp.entry_state = s0.fork()
         a = (clo.d if isinstance(clo, V) else clo).node.args
         pos = [params[p.arg] for p in a.posonlyargs + a.args if p.arg in params]
@@ -502,7 +506,18 @@ def _run_instance(c, tree, mod, label, recv, rep, timeout_ms, lookup):
                 if stage1.kind == "const" and callable(stage1.d):
                     rc = interp.resolve_repo_callable(stage1.d)     # a module-level function of the repository returned as is
                     if rc is None:
-                        raise Unsupported("`then` stage: the unit returned a callable that is not repository source")
+                        # the unit hands out a callable that is not repository source (`date.isoformat`, `Decimal.__str__`):
+                        # it is applied like any other built-in, i.e. probed per live cell of its argument
+                        names2 = dict(spec_names)
+                        tp = {nm: make_param(interp, s1, nm, kd) for nm, kd in c.then.items()}
+                        names2.update(tp)
+                        names2["stage1"] = r[1]
+                        for rq in c.then_requires:
+                            s1.assume(SpecEnv(interp, s1, names2).eval_bool(rq))
+                        _prune_live(interp, s1)
+                        for s2, r2 in interp.call(s1, stage1, list(tp.values()), {}):
+                            paths.append((s2, r2, names2, False))
+                        continue
                     stage1 = V("fn", rc[0])
                 if stage1.kind != "fn":
                     raise Unsupported("`then` stage: the unit did not return a closure")
@@ -512,6 +527,10 @@ def _run_instance(c, tree, mod, label, recv, rep, timeout_ms, lookup):
                 tp = {nm: make_param(interp, s1, nm, kd) for nm, kd in c.then.items()}
                 names2.update(tp)
                 names2["stage1"] = r[1]
+                for rq in c.then_requires:
+                    s1.assume(SpecEnv(interp, s1, names2).eval_bool(rq))
+                if c.then_requires:
+                    _prune_live(interp, s1)
                 for s2, r2 in interp.call_closure(s1, stage1.d, list(tp.values()), {}):
                     paths.append((s2, r2, names2, False))
             elif c.then:
